@@ -224,7 +224,11 @@ func (s *orRuleSetLoader) makeTypeFromRuleSet(lex lexeme.LexEvent) {
 	declaredType := ""
 	if typeConstraint != nil {
 		declaredType = typeConstraint.(constraint.BytesKeeper).Bytes().Unquote().String()
-	} else {
+	}
+	if typeConstraint == nil || declaredType == constraint.EnumConstraintType.String() {
+		// "enum" is no JSON type: like without a type, the values of the "enum"
+		// rule say which JSON types the rule-set describes (the outer example
+		// may be an array or an object of another alternative).
 		s.setJsonTypeByRules()
 	}
 
